@@ -6,14 +6,15 @@ from vf import gen, corecheck as cc, framework as fw
 RULE = ("scenarios (random API programs with scripted re-entrant callbacks, see vf/gen.py) from the profiles mixed, "
         "hostile_lifetime (bursts past the mailbox capacity; self stop/deregister/unsubscribe with mail in flight; a module "
         "stopped/deregistered/paused by another one while it has events in the same poll batch; events of every kind retained past "
-        "source, module and context; auto-free to 0/1/many recipients; re-subscription with other flags) run on the asan build; "
-        "violated by any ASan/UBSan/LSan report or fatal signal, a free() of a block the accounting allocator does not hold, "
+        "source, module and context; auto-free to 0/1/many recipients; re-subscription with other flags), last_ref / ctx_gone (a module or the whole context goes away inside a callback because the reference given to m_mod_deregister was the last one) run on the asan build; "
+        "plus a slice of fresh scenarios on the plain build under valgrind memcheck; "
+        "violated by any ASan/UBSan/LSan/memcheck report or fatal signal, a free() of a block the accounting allocator does not hold, "
         "blocks outstanding after the context is gone and every user reference dropped, a zombie not answering its name, a "
         "retained event whose content changed. non-trivial = scenario with at least one callback-nested API call or retained event; "
         "distinct = hash of the timestamp-free trace")
 ASSUME = ["red-zone tools miss intra-object overflows and reuse after quarantine; the accounting allocator narrows the latter "
           "for the library's own blocks", "documented preconditions are respected by the generators (DESIGN.md §2)",
-          "gcc ASan/UBSan/LSan runtimes", "VERIF_SEED"]
+          "gcc ASan/UBSan/LSan runtimes; valgrind 3.19 memcheck (leak check off: the accounting allocator decides leaks)", "VERIF_SEED"]
 KNOWN = {"task_hostile": "C04/known:task-outlives-its-source"}
 
 
@@ -65,6 +66,10 @@ def build_cases(tier, seed):
         c = cc.Case()
         c.sc, c.profile, c.mode, c.seed = gen.gen_last_ref(seed * 1000 + k), "last_ref", ("loop" if k % 2 else "dispatch"), seed * 1000 + k
         cases.append(c)
+    for k in range(max(20, n // 20)):
+        c = cc.Case()
+        c.sc, c.profile, c.mode, c.seed = gen.gen_ctx_gone(seed * 1000 + k), "ctx_gone", ("loop" if k % 2 else "dispatch"), seed * 1000 + k
+        cases.append(c)
     for prof, g in (("task_hostile", gen.gen_task_hostile), ("restart_in_stop", gen.gen_restart_in_stop)):
         for k in range(3):
             c = cc.Case()
@@ -77,6 +82,12 @@ def run(tier):
     res = fw.Result("C04", tier)
     cases = build_cases(tier, fw.seed())
     cc.run_checked(res, cases, "asan", oracle, relevant, "C04", known_class=KNOWN)
+    # second opinion: fresh scenarios of the same profiles on the plain build under valgrind memcheck (reads of
+    # uninitialised memory are invisible to ASan); a case valgrind is too slow for is inconclusive, not a verdict
+    mc = [c for c in build_cases(tier, fw.seed() + 7777) if c.profile in ("mixed", "hostile_lifetime", "last_ref", "ctx_gone")]
+    mc = mc[:32 if tier == "quick" else 2000]
+    cc.run_checked(res, mc, "memcheck", oracle, relevant, "C04", timeout=600)
+    res.count("cases_under_memcheck", len(mc))
     for p in ("mixed", "hostile_lifetime"):
         res.count("cases_" + p, sum(1 for c in cases if c.profile == p))
     res.count("callback_nested_calls", sum(1 for c in cases for r in c.recs if r.k == ">" and r.depth))
